@@ -14,6 +14,13 @@ only after the last read (and the result once more after the reader is closed); 
 read()-only source was asked for, on EVERY file, malformed ones included; files cut inside their point block must read the
 same through every source; memory-map edits (whole dimension by attribute / item / record, scaled x y z, sub-fields, slices
 and elements of views) against the same edit on an in-memory copy, by byte diff of the file and by a subsequent read.
+* WHAT IS READ CAN BE USED ALIKE (search only: the model's records are bytes) - after everything else has been looked at, the result
+  of read() / laspy.read and the first / last record handed out by read_points / a chunk iterator are EDITED: is the array writeable,
+  and one dimension of every kind the format has (standard field, sub-field of a packed byte, scaled coordinate, plain / scaled /
+  array-valued extra dimension; which one and by which route - attribute, item, view[:], view[k], view[a:b], the record array, an
+  in-place operator on the view - by a salt that is the same for every access path), every value changed; the outcome of each edit
+  and the bytes of the records afterwards are those of the same run by path (a record built over a read-only buffer, a copy that
+  swallows the edit, another error).
 Search only (no model: the extracted model counts bytes in unary, and the library has nothing to follow for short counts):
 * EVLR TIMING ON EVERY FILE — by path (which runs every (read_evlrs, plan)), on every file, malformed ones included, the outcome with
   read_evlrs False / not given is the outcome with read_evlrs=True for the same plan (both fail, or both give the same result).
@@ -38,7 +45,9 @@ Both passes:
   where it is not usually found: the Extra Bytes record (LASF_Spec / 4) that describes the extra bytes of the points stored as an
   EVLR instead of a VLR (alone; describing another number of bytes; next to one among the VLRs), two of them adjacent among the VLRs,
   the classification lookup / WKT / WKT math transform / GeoTIFF (3) / waveform descriptor / laszip records as EVLRs, as VLRs, in both
-  lists, twice in a row; with 0, 1-3, 7 points. Every access path must make the same of them, and what is compared includes the POINT
+  lists, twice in a row; with 0, 1-3, 7 points; and in EVERY run one record of EVERY known type (the laszip record of an UNCOMPRESSED file
+  among them) among the VLRs - LAS 1.4 and an older version - and among the EVLRs, each in a file with NO point and in a file with
+  points (the VLRs the path shows are compared with the records that were stored, not only counted). Every access path must make the same of them, and what is compared includes the POINT
   FORMAT written down completely (`format_desc`: id, size, per dimension name / kind / bits / elements / standard or not / description /
   scales / offsets, the numpy dtype with field offsets) of the header at the three moments, of the result's records and of every chunk
   handed out. Correspondence: the model reads them as records like any other, and the point format the implementation shows must be the
@@ -83,6 +92,9 @@ ASSUMPTIONS = [
     "every byte string",
     "the point format: the model's format_of is (format id, record size, descriptors of the first Extra Bytes record among the VLRs); how "
     "laspy turns the descriptors into dimensions is laspy's own code (expected_format applies it to what the model read)",
+    "what is read can be used alike: judged by the failing-input search only (the model's records are byte strings), relative to the same "
+    "run by path - a record that is read-only (or not editable in some way) through EVERY access path is not a difference between access "
+    "paths; the memory map is not part of that comparison (its edits are the memory-map obligations)",
     "memory-map edits: values with as many elements as the map has records (a longer value makes the record grow into a private copy, which "
     "no file can follow); the expected bytes of scaled assignments are those the same assignment gives on an in-memory copy of the file",
 ]
@@ -449,6 +461,118 @@ def truth_enc(truth):
     return enc
 
 
+# ---------------------------------------------------------------------------------
+# what is read must be USABLE alike through every access path: the caller edits it
+# ---------------------------------------------------------------------------------
+EDIT_ROUTES = ["attr", "item", "view[:]", "view[k]", "view[a:b]", "array", "iop"]
+# how many kinds of dimension are edited (in turn, by `salt`) in the result of read() / in a record handed out; None = all of them
+# (set by observe in the thorough tier). In the quick tier the first and - when there are several - the LAST record handed out
+# are looked at in alternation
+EDIT_KINDS_PER_RESULT = 3
+EDIT_KINDS_PER_CHUNK = 2
+
+
+_DIM_CLASSES = {}
+
+
+def dim_classes(pf):
+    """the dimension names of a point format by KIND of dimension: plain standard field, sub-field of a packed byte, scaled
+    coordinate, extra dimension (plain, scaled, array valued); sorted by kind, kinds the format does not have left out"""
+    key = (pf.id, tuple((d.name, d.num_elements, d.scales is None, d.offsets is None) for d in pf.extra_dimensions))
+    if key not in _DIM_CLASSES:
+        _DIM_CLASSES[key] = [(c, n) for c, n in sorted(_dim_classes(pf).items()) if n]
+    return _DIM_CLASSES[key]
+
+
+def _dim_classes(pf):
+    from laspy.point import dims
+    subs = [s.name for subs_ in dims.COMPOSED_FIELDS[pf.id].values() for s in subs_]
+    names = list(pf.dimension_names)
+    out = {"sub-field": [n for n in names if n in subs], "scaled coordinate": ["x", "y", "z"]}
+    out["standard field"] = [d.name for d in pf.dimensions if d.is_standard and d.name not in subs]
+    ex = list(pf.extra_dimensions)
+    out["extra dimension"] = [d.name for d in ex if d.num_elements == 1 and d.scales is None and d.offsets is None]
+    out["scaled extra dimension"] = [d.name for d in ex if d.scales is not None or d.offsets is not None]
+    out["array-valued extra dimension"] = [d.name for d in ex if d.num_elements > 1 and d.scales is None and d.offsets is None]
+    return out
+
+
+def edit_one(obj, name, route, salt):
+    """one edit of dimension `name` of a LasData / point record by one route: every value is changed (integers: lowest bit
+    flipped; floats and scaled values: the order of the records reversed)"""
+    cur = np.array(obj[name] if name not in ("x", "y", "z") else getattr(obj, name))
+    n = len(cur)
+    new = cur ^ 1 if cur.dtype.kind in "iu" else cur[::-1].copy()
+    rec = getattr(obj, "points", obj)
+    if route == "array" and name not in (rec.array.dtype.names or ()):
+        route = "item"
+    if route in ("view[k]", "view[a:b]") and n == 0:
+        route = "view[:]"
+    if route == "attr":
+        setattr(obj, name, new)
+    elif route == "item":
+        obj[name] = new
+    elif route == "view[:]":
+        (obj[name] if name not in ("x", "y", "z") else getattr(obj, name))[:] = new
+    elif route == "view[k]":
+        k = salt % n
+        (obj[name] if name not in ("x", "y", "z") else getattr(obj, name))[k] = new[k]
+    elif route == "view[a:b]":
+        b = (n + 1) // 2
+        (obj[name] if name not in ("x", "y", "z") else getattr(obj, name))[0:b] = new[0:b]
+    elif route == "array":
+        rec.array[name] = new
+    elif route == "iop":
+        v = obj[name] if name not in ("x", "y", "z") else getattr(obj, name)
+        v += 1
+    else:
+        raise ValueError(route)
+    return route
+
+
+def usability(obj, salt, kinds=None):
+    """what a caller can DO with what was read (a LasData, or a point record handed out by read_points / a chunk iterator):
+    whether its array may be written to, and - one dimension of every kind the format has (kinds = k: of k of them, in turn),
+    each by one of the assignment routes (which ones: by `salt`, the same for every access path) - the outcome of each edit and
+    the bytes of the records afterwards.
+    [writeable, [[kind of dimension, name, route, outcome] ..], length and crc of the records after the edits]"""
+    rec = getattr(obj, "points", obj)
+    done = []
+    classes = dim_classes(rec.point_format)
+    if kinds is not None and kinds < len(classes):
+        classes = [classes[(salt + i) % len(classes)] for i in range(kinds)]
+    with np.errstate(all="ignore"):
+        for j, (cls, names) in enumerate(classes):
+            name = names[(salt + j) % len(names)]
+            route = EDIT_ROUTES[(salt // 7 + j) % len(EDIT_ROUTES)]
+            try:
+                route = edit_one(obj, name, route, salt)
+                res = "ok"
+            except Exception as ex:  # noqa
+                res = common.exc_kind(ex) + ": " + str(ex)[:60]
+            done.append([cls, name, route, res])
+    rec = getattr(obj, "points", obj)
+    b = lasio.rec_bytes(rec)
+    return [bool(rec.array.flags.writeable), done, f"{len(b)} bytes, crc {zlib.crc32(b):08x}"]
+
+
+def usable_diff(a, b):
+    """the first difference between two `usability` observations (a: by path), or None"""
+    for key, what in (("result", "the result of read()"), ("first", "the first record handed out"), ("last", "the last record handed out")):
+        x, y = a.get(key), b.get(key)
+        if x == y:
+            continue
+        if x is None or y is None:
+            return f"{what}: {'not there' if y is None else 'there'} here, {'not there' if x is None else 'there'} by path"
+        if x[0] != y[0]:
+            return f"{what}: its array has flags.writeable {y[0]} here, {x[0]} by path"
+        for ea, eb in zip(x[1], y[1]):
+            if ea != eb:
+                return f"{what}: editing the {eb[0]} `{eb[1]}` by {eb[2]}: {eb[3]} here, {ea[3]} by path"
+        return f"{what}: after the same edits the records are {y[2]} here, {x[2]} by path"
+    return None
+
+
 def read_through(kind, raw, path, read_evlrs, plan, route="open", enc=hx):
     """route "open": laspy.open(source[, read_evlrs=..]) (read_evlrs None: not given), then the consumption plan (("c", k):
     `for chunk in reader.chunk_iterator(k)`, ("p", n): reader.read_points(n)), then read(). Three moments are observed:
@@ -463,6 +587,7 @@ def read_through(kind, raw, path, read_evlrs, plan, route="open", enc=hx):
     las = None
     variant = variant_of(kind)
     npt = ALT_NP.get(variant)
+    salt = zlib.crc32(raw[:4096]) % 100003 + 13 * len(plan)        # which dimensions are edited and how: the same for every access path
 
     def num(v):
         # the count as the caller's numpy integer, when it is one the type holds
@@ -474,6 +599,7 @@ def read_through(kind, raw, path, read_evlrs, plan, route="open", enc=hx):
         if route == "read":
             las = laspy.read(src, **kw)
             out["ok"] = snapshot(las, enc=enc)
+            out["usable"] = {"result": usability(las, salt, kinds=EDIT_KINDS_PER_RESULT)}
         else:
             if read_evlrs is not None:
                 kw["read_evlrs"] = read_evlrs if npt is None else np.bool_(read_evlrs)
@@ -513,8 +639,17 @@ def read_through(kind, raw, path, read_evlrs, plan, route="open", enc=hx):
                     out["now"] = enc(b"".join(now) + lasio.rec_bytes(las.points))
                     out["chunks"] = [len(x) for x in now]
             out["late"] = enc(pre + lasio.rec_bytes(las.points))
+            # last of all (it changes what was read): what the caller can do with the result and with the records handed out
+            out["usable"] = {"result": usability(las, salt, kinds=EDIT_KINDS_PER_RESULT)}
+            if kept:
+                both = EDIT_KINDS_PER_CHUNK is None or len(kept) == 1
+                if both or salt % 2 == 0:
+                    out["usable"]["first"] = usability(kept[0], salt + 1, kinds=EDIT_KINDS_PER_CHUNK)
+                if len(kept) > 1 and (both or salt % 2 == 1):
+                    out["usable"]["last"] = usability(kept[-1], salt + 2, kinds=EDIT_KINDS_PER_CHUNK)
     except Exception as ex:  # noqa
         out.pop("ok", None)
+        out.pop("usable", None)
         out["err"] = common.exc_kind(ex)
         out["msg"] = f"{type(ex).__name__}: {ex}"[:200]
     finally:
@@ -758,11 +893,19 @@ def make_relocated(ctx, rng):
     plan = [("1.4", s) for s in shapes14] + [(rng.choice(["1.1", "1.2", "1.3"]), s) for s in ("eb_twice_vlr", "known_vlr")]
     if ctx.thorough():
         plan = plan * 3 + [(v, s) for v in ("1.1", "1.2", "1.3") for s in ("eb_twice_vlr", "known_vlr", "known_twice")]
+    # in every run, whatever was drawn above: EVERY known type (one record of each) among the VLRs, and among the EVLRs, of a file with
+    # NO point and of a file with points (a reader treats the empty file apart: another point reader, clean-up code of its own)
+    old = rng.choice(["1.1", "1.2", "1.3"])
+    forced = {len(plan) + k: n_ for k, n_ in enumerate([0, None, 0, None, 0, None])}
+    plan = plan + [("1.4", "every_known_vlr"), ("1.4", "every_known_vlr"), ("1.4", "every_known_evlr"), ("1.4", "every_known_evlr"),
+                   (old, "every_known_vlr"), (old, "every_known_vlr")]
     out = []
     counts = [0, rng.choice([1, 2, 3]), 7]
     for i, (version, shape) in enumerate(plan):
         fmt = rng.choice(lasio.COMPAT[version])
         n = counts[i % 3] if shape != "eb_evlr" else [0, rng.choice([1, 2, 7])][i % 2]
+        if i in forced:
+            n = forced[i] if forced[i] is not None else rng.choice([1, 2, 7])
         h = lasio.rand_header(rng, version=version, fmt=fmt, nvlrs=rng.choice([0, 1]))
         with_eb = shape.startswith("eb") or rng.random() < 0.4
         if with_eb:
@@ -782,7 +925,7 @@ def make_relocated(ctx, rng):
             rec = [v for v in own_records(lasio.write_las(h2))[0] if is_eb(v)][0]
             sizes[rec] = h2.point_format.num_extra_bytes
             return rec
-        whats = rng.sample(KNOWN_KINDS, rng.choice([1, 2, 4, len(KNOWN_KINDS)]))
+        whats = rng.sample(KNOWN_KINDS, rng.choice([1, 2, 4, len(KNOWN_KINDS)])) if not shape.startswith("every_known") else rng.sample(KNOWN_KINDS, len(KNOWN_KINDS))
         known = [known_record(rng, w) for w in whats]
         at = lambda l: rng.randrange(len(l) + 1)
         if shape == "eb_evlr":                  # the description of the extra bytes is among the EVLRs only
@@ -798,10 +941,10 @@ def make_relocated(ctx, rng):
             k, e2 = vl.index(eb[0]), other_eb()
             # before the one laspy wrote only when it describes no more bytes than the points carry (the first one is the one used)
             vl.insert(k + (rng.choice([0, 1]) if sizes[e2] <= h.point_format.num_extra_bytes else 1), e2)
-        elif shape == "known_evlr":
+        elif shape in ("known_evlr", "every_known_evlr"):
             for kr in known:
                 ev.insert(at(ev), kr)
-        elif shape == "known_vlr":
+        elif shape in ("known_vlr", "every_known_vlr"):
             for kr in known:
                 vl.insert(at(vl), kr)
         elif shape == "known_both_lists":
@@ -819,7 +962,7 @@ def make_relocated(ctx, rng):
         f = {"version": version, "fmt": fmt, "n": n, "nev": len(ev), "ps": ps, "off": int.from_bytes(new[96:100], "little"),
              "extra_dims": len(list(h.point_format.extra_dimensions)), "cls": RELOCATED, "raw": new, "shape": shape,
              "label": f"{version}/fmt{fmt}/n{n}/evlrs{len(ev)}/{shape}#{i}",
-             "truth": {"points": hx(lasio.rec_bytes(pts)), "vlrs": len(vl), "evlrs": None if version != "1.4" else tup(ev)}}
+             "truth": {"points": hx(lasio.rec_bytes(pts)), "vlrs": len(vl), "vlr_list": tup(vl), "evlrs": None if version != "1.4" else tup(ev)}}
         if evaluable(new):
             out.append(f)
     return out
@@ -1067,6 +1210,9 @@ def observe(ctx):
     global _OBS
     if _OBS is not None:
         return _OBS
+    global EDIT_KINDS_PER_CHUNK, EDIT_KINDS_PER_RESULT
+    if ctx.thorough():
+        EDIT_KINDS_PER_CHUNK = EDIT_KINDS_PER_RESULT = None
     tmp = tempfile.mkdtemp(prefix="c17_", dir="/var/tmp")
     obs = {"files": [], "edits": []}
     try:
@@ -1504,7 +1650,9 @@ def correspond(ctx):
         "has points or EVLRs; distinct by (file label, source kind, read_evlrs, plan). In every run 11 (thorough: 36) files in which a record "
         "of a known type sits in the other list (Extra Bytes record as EVLR / twice / in both lists; classification lookup, WKT, GeoTIFF, "
         "waveform descriptor, laszip records as EVLRs, VLRs, both, adjacent), 0-7 points; the point format (every dimension, the dtype) is "
-        "part of what is compared. Search only: per run 11 data sets (seeded recipes) "
+        "part of what is compared; 6 more files per run hold one record of every known type (laszip included) among the VLRs (1.4, older) / "
+        "the EVLRs, with no point and with points. The result and the records handed out are then edited (writeable flag, one dimension "
+        "of every kind by rotating assignment routes) and compared with the same edits by path. Search only: per run 11 data sets (seeded recipes) "
         "of which one part is just over 8 KiB / 64 KiB / 1 MiB / k * io.DEFAULT_BUFFER_SIZE (point block, header + VLR block, one VLR "
         "payload of up to 65535 bytes, one EVLR payload, the gap between the last point and the first EVLR, 255-300 VLRs or EVLRs) or over 8 MiB (two point blocks per run; 16-64 MiB in "
         "the thorough tier), read in one call and by boundary-crossing chunks through the 13 source kinds, laspy.read and laspy.mmap; and "
@@ -1708,6 +1856,9 @@ def same_read(ref, got):
                 return f"header fields {ks}"
             if k == "evlrs":
                 return f"evlrs: {None if a[k] is None else len(a[k])} by path, {None if b[k] is None else len(b[k])} here"
+            if k == "vlrs":
+                ids = lambda l: [f"{bytes.fromhex(u).decode('latin-1')}/{r}" for (u, r, dd, p_) in l]
+                return f"vlrs: {len(a[k])} by path {ids(a[k])[:10]}, {len(b[k])} here {ids(b[k])[:10]} (or other payloads)"
             if k == "points":
                 return f"records: {a['count']} by path, {b['count']} here (or other bytes)"
             return k
@@ -1795,6 +1946,13 @@ def judge(raw, cls, kind, e, plan, ref, ref_same, got):
             if a["points"] != b["points"]:
                 out.append((f"{title}: records handed out differ from the path's: {src}, {cls} file",
                             f"plan {plan_tok(plan)}: {b['count']} records here, {a['count']} by path (or other bytes)"))
+    # 4. what was read can be USED alike: the result of read() and the records handed out may be written to, and the same edits
+    #    (one dimension of every kind, by the assignment routes in turn) have the same outcome and give the same records
+    if ref_same is not None and "usable" in ref_same and "usable" in got:
+        d = usable_diff(ref_same["usable"], got["usable"])
+        if d:
+            out.append((f"what was read cannot be edited like what is read by path: {src}{'' if caps_of(kind)[1] else ' without readinto'}, {cls} file",
+                        f"open(read_evlrs {arg}), plan {plan_tok(plan)}: {d}"))
     return out
 
 
@@ -1861,10 +2019,13 @@ def judge_file(ctx, f, add, add_short):
         t = f["truth"]
         tp = t["points"] if f["cls"] != "truncated" else t["points"][:2 * f["stored"] * f["ps"]]
         te = t["evlrs"] if f["cls"] != "truncated" else ref["ok"]["evlrs"]
-        if ref["ok"]["points"] != tp or ref["ok"]["evlrs"] != te or len(ref["ok"]["vlrs"]) != t["vlrs"]:
-            add("the path read differs from what was written", file_input(f, kind="path"),
+        tv = t.get("vlr_list", ref["ok"]["vlrs"])
+        if ref["ok"]["points"] != tp or ref["ok"]["evlrs"] != te or len(ref["ok"]["vlrs"]) != t["vlrs"] or ref["ok"]["vlrs"] != tv:
+            gone = [f"{bytes.fromhex(u).decode('latin-1')}/{r}" for (u, r, dd, p_) in tv if [u, r, dd, p_] not in ref["ok"]["vlrs"]]
+            add("the path read differs from what was written" + (f" ({'no' if f['n'] == 0 else 'some'} points, VLRs)" if gone or len(ref["ok"]["vlrs"]) != t["vlrs"] else ""),
+                file_input(f, kind="path"),
                 f"records equal: {ref['ok']['points'] == tp} ({ref['ok']['count']} read, {f.get('stored', f['n'])} stored); "
-                f"evlrs equal: {ref['ok']['evlrs'] == te}; vlrs {len(ref['ok']['vlrs'])} read, {t['vlrs']} written")
+                f"evlrs equal: {ref['ok']['evlrs'] == te}; vlrs {len(ref['ok']['vlrs'])} read, {t['vlrs']} written" + (f"; not read: {gone[:4]}" if gone else ""))
         if f["cls"] != "truncated" and ref["opened"]["evlrs"] != t["evlrs"]:
             add("just opened by path (read_evlrs=True): evlrs differ from what was written",
                 file_input(f, kind="path", read_evlrs=True, plan="-", stage="opened"), f"{ref['opened']['evlrs']!r}"[:200])
@@ -1912,6 +2073,9 @@ def judge_file(ctx, f, add, add_short):
                     d = same_read(rs, got)
                     if d:
                         put(f"{d.split(':')[0].split(' ')[0]} differ from the path read: {src_name(kind)}, malformed file", inp, d)
+                    elif "usable" in rs and "usable" in got and usable_diff(rs["usable"], got["usable"]):
+                        put(f"what was read cannot be edited like what is read by path: {src_name(kind)}{'' if caps_of(kind)[1] else ' without readinto'}, malformed file",
+                            inp, usable_diff(rs["usable"], got["usable"]))
             # whatever the file: a source that does not say it can seek is never asked to seek or tell, and a source is
             # only asked for what it offers
             if "log" in got and not sk:
@@ -1932,6 +2096,9 @@ def judge_file(ctx, f, add, add_short):
             if d:
                 add(f"laspy.read: {d.split(':')[0].split(' ')[0]} differ from the path read: {src_name(kind)}, {f['cls']} file",
                     file_input(f, kind=kind, route="laspy.read"), d)
+            elif "usable" in ref and "usable" in got and usable_diff(ref["usable"], got["usable"]):
+                add(f"laspy.read: what was read cannot be edited like what is read by path: {src_name(kind)}{'' if caps_of(kind)[1] else ' without readinto'}, {f['cls']} file",
+                    file_input(f, kind=kind, route="laspy.read"), usable_diff(ref["usable"], got["usable"]))
             if "log" in got and not caps_of(kind)[0]:
                 bad = [t for t in got["log"] if t[0] in "st"] + [a for a in got["asked"] if a in ("seek", "tell")]
                 if bad:
@@ -1967,10 +2134,10 @@ def search(ctx, seeds):
         if kind not in seen and len(later[bucket]) < 3:
             seen.add(kind)
             later[bucket].append({"kind": kind, "input": inp, "observed": why})
+    for f in obs["files"]:          # the small files first: the first failing input of a kind is the one that is kept
+        judge_file(ctx, f, add, add_short)
     for f in obs["sized"]:
         ctx.count("size boundary: " + f["recipe"]["part"] + " over " + str(f["recipe"]["bound"]))
-        judge_file(ctx, f, add, add_short)
-    for f in obs["files"]:
         judge_file(ctx, f, add, add_short)
     for ed in obs["edits"]:
         inp = {"file": ed["file"], "kind": "mmap-edit", "dim": ed["dim"], "route": ed["route"], "sel": ed.get("sel"), "value": ed.get("value"),
@@ -2064,6 +2231,8 @@ def replay(ctx, data):
         elif inp.get("route") == "laspy.read":
             got = read_through(kind, raw, path, None, [], route="read", enc=enc)
             bad += [d for d in [same_read(ref, got)] if d]
+            if "usable" in ref and "usable" in got:
+                bad += [d for d in [usable_diff(ref["usable"], got["usable"])] if d]
         else:
             e, plan = inp.get("read_evlrs", True), parse_plan(inp.get("plan"))
             got = read_through(kind, raw, path, e, plan, enc=enc)
@@ -2076,6 +2245,8 @@ def replay(ctx, data):
                     bad += [d for d in [same_read(other, got)] if d]
             elif inp.get("class") == "malformed":
                 bad += [d for d in [same_read(ref_same, got)] if d] if caps_of(kind)[0] else []
+                if caps_of(kind)[0] and "usable" in ref_same and "usable" in got:
+                    bad += [d for d in [usable_diff(ref_same["usable"], got["usable"])] if d]
             else:
                 bad += judge(raw[:400], inp.get("class", "valid"), kind, e, plan, ref, ref_same, got)
             if not caps_of(kind)[0]:
